@@ -1987,7 +1987,10 @@ def block_print_table(check: Check, repo: Repo, rule: str = "BLOCK-PRINT-TABLE")
         "starts with blank?, longer than 70?, trailing quote/backslash?, minimize? ... - spellings of one arithmetic fact "
         "are linked, nothing is run) and three cells are required: (1) a single-line value that starts with a space or "
         "tab never gets a leading line break - the parser would take its leading blank for common indentation and strip "
-        "it; (2) a forced leading line break is written; (3) a forced trailing line break is written",
+        "it; (2) a forced leading line break is written; (3) a forced trailing line break is written; (4) when the value ends "
+        "in a double quote that is not the end of an escaped triple quote (escaped text not ending in \\\"\"\"), and (5) when it "
+        "ends in a backslash - however many -, a line break separates it from the closing delimiter: otherwise the delimiter "
+        "is read one character early, or as an escape, and the printed text does not lex",
     )
     fn = repo.func("language.block_string", "print_block_string")
     names = {t.id for s in walk_body(fn) if isinstance(s, ast.Assign) for t in s.targets if isinstance(t, ast.Name)}
@@ -2017,6 +2020,14 @@ def block_print_table(check: Check, repo: Repo, rule: str = "BLOCK-PRINT-TABLE")
     fold.discover = True
     run({})  # discover the atoms
     fold.discover = False
+    # the three facts about the end of the text that decide whether the closing delimiter can follow directly; they
+    # are atoms of the table whether or not the code mentions them in this spelling
+    END_QUOTE = unparse(ast.parse("value.endswith('\"')", mode="eval").body)
+    END_ESCAPED_TRIPLE = unparse(ast.parse("escaped_value.endswith('\\\\\"\"\"')", mode="eval").body)
+    END_BACKSLASH = unparse(ast.parse("value.endswith('\\\\')", mode="eval").body)
+    for a in (END_QUOTE, END_ESCAPED_TRIPLE, END_BACKSLASH):
+        if a not in fold.atoms:
+            fold.atoms.append(a)
     atoms = list(fold.atoms)
     if len(atoms) > 14:
         raise AnalysisError(f"print_block_string: {len(atoms)} atoms - the flag computation is no longer a small table")
@@ -2039,6 +2050,10 @@ def block_print_table(check: Check, repo: Repo, rule: str = "BLOCK-PRINT-TABLE")
             bad.append(f"(2) forced leading line break not written when: {where}")
         if env.get("force_trailing_new_line") and env["after"] != "\n":
             bad.append(f"(3) forced trailing line break not written when: {where}")
+        if val[END_QUOTE] and not val[END_ESCAPED_TRIPLE] and env["after"] != "\n":
+            bad.append(f"(4) the text ends in a quote that is not part of an escaped triple quote, yet the closing delimiter follows directly when: {where}")
+        if val[END_BACKSLASH] and env["after"] != "\n":
+            bad.append(f"(5) the text ends in a backslash, yet the closing delimiter follows directly (read back as the escape \\\"\"\") when: {where}")
     check.ob(rule, fn, f"print_block_string: {2 ** len(atoms)} valuations of {len(atoms)} atoms", not bad,
              f"atoms: {atoms}" if not bad else bad[0] + (f" (+{len(bad) - 1} more cells)" if len(bad) > 1 else ""))
 
@@ -2093,3 +2108,77 @@ def list_separators(check: Check, repo: Repo, rule: str = "LIST-SEPARATORS") -> 
                  (f"parser delimiter {want!r}" if want else "ignored characters only") if core == want else
                  (f"the parser reads `{field}` with delimiter {want!r}, the printer writes {sep!r}" if want else f"{sep!r} contains the token(s) {core!r} the parser does not expect between `{field}`"))
     check.floor(rule, 30, "join(node.<field>, <constant>) sites of the printer")
+
+
+_UNICODE_STR_PREDICATES = {"isalpha", "isalnum", "isdigit", "isdecimal", "isnumeric", "isspace", "isidentifier", "isupper", "islower", "istitle"}
+
+
+def lexer_ascii_classes(check: Check, repo: Repo, rule: str = "LEXER-ASCII") -> None:
+    import re._parser as sre_parse  # the stdlib's own regex parser: patterns are inspected as syntax trees, never run
+
+    check.rule(
+        rule,
+        "the lexical grammar is ASCII: letters are A-Z a-z, digits 0-9, and everything outside is either inside a "
+        "string/comment or a syntax error. In the lexer modules (lexer, character_classes, block_string, "
+        "strip_ignored_characters) no character class that Python widens to Unicode is used: no regular expression "
+        "contains \\\\w \\\\d \\\\s \\\\b (or their complements) unless compiled with re.ASCII, and no str.isalpha / isalnum / "
+        "isdigit / isspace / isidentifier ... is called. `\\\\w*` for NameContinue swallows 'é', '٣', '²' into a Name: "
+        "`{ café }` lexes although `caf é` does not",
+    )
+    n = 0
+    for mn in ("language.lexer", "language.character_classes", "language.block_string", "utilities.strip_ignored_characters"):
+        mod = repo.mod(mn)
+        for c in ast.walk(mod.tree):
+            if isinstance(c, ast.Call) and isinstance(c.func, ast.Attribute) and c.func.attr in _UNICODE_STR_PREDICATES and not c.args:
+                n += 1
+                fn_ = enclosing_function(c)
+                recv = unparse(c.func.value)
+                narrowed = False
+                if fn_ is not None and not isinstance(fn_, ast.Lambda):
+                    narrowed = (f"{recv}.isascii()", True) in norm_facts(FactFlow(CFG(fn_)).facts_at(c))
+                check.ob(rule, c, f"{qualname_of(c)}: {unparse(c)[:50]}", narrowed,
+                         f"only under `{recv}.isascii()`" if narrowed else f"str.{c.func.attr}() is Unicode-aware: it accepts characters the grammar does not")
+            if isinstance(c, ast.Call) and unparse(c.func) in ("re.compile", "compile", "re.match", "re.fullmatch", "re.search", "re.sub", "re.split", "re.findall") and c.args:
+                try:
+                    text = Evaluator(repo, mod).eval(c.args[0])
+                except NotStatic:
+                    continue
+                if not isinstance(text, str):
+                    continue
+                n += 1
+                ascii_flag = any("ASCII" in unparse(a) or unparse(a) in ("re.A",) for a in list(c.args[1:]) + [k.value for k in c.keywords]) or text.startswith("(?a")
+                cats = []
+
+                def walk(p) -> None:
+                    for op, av in p:
+                        name = str(op)
+                        if name == "IN":
+                            for o2, a2 in av:
+                                if str(o2) == "CATEGORY":
+                                    cats.append(str(a2))
+                        elif name == "CATEGORY":
+                            cats.append(str(av))
+                        elif name == "AT" and "BOUNDARY" in str(av):
+                            cats.append(str(av))
+                        elif name in ("MAX_REPEAT", "MIN_REPEAT", "POSSESSIVE_REPEAT"):
+                            walk(av[2])
+                        elif name == "SUBPATTERN":
+                            walk(av[3])
+                        elif name == "BRANCH":
+                            for alt in av[1]:
+                                walk(alt)
+                        elif name in ("ASSERT", "ASSERT_NOT"):
+                            walk(av[1])
+                        elif name == "ATOMIC_GROUP":
+                            walk(av)
+
+                try:
+                    walk(sre_parse.parse(text))
+                except Exception as ex:  # noqa: BLE001
+                    raise AnalysisError(f"{mn}: pattern {text!r} cannot be parsed: {ex}") from ex
+                ok = ascii_flag or not cats
+                check.ob(rule, c, f"{qualname_of(c) or mn}: pattern {text!r}", ok,
+                         "no Unicode-dependent class" if not cats else (f"{sorted(set(cats))} under re.ASCII" if ascii_flag else
+                         f"uses {sorted(set(cats))} without re.ASCII: matches non-ASCII letters/digits/blanks"))
+    if n == 0:
+        raise AnalysisError("LEXER-ASCII: no pattern found in the lexer modules (block_string's line splitter expected)")
